@@ -117,7 +117,9 @@ def h19c_overdue(S):
             conn = Connection(InMemoryMessageBroker())
             if has_ttl:
                 S.assume(ttl >= SEC)  # Job refuses a ttl under one second (documented precondition)
-            obj = Job("job", ttl=ttl_v, _connection=conn)
+            # a deferral does not move the expiry: it is counted from the job's creation
+            until = S.datetime_us(S.int("deferred_until", Y1970, Y2100)) if S.flag("has_deferred_until") else None
+            obj = Job("job", ttl=ttl_v, deferred_until=until, _connection=conn)
             S.assume(clock.reads[0] == ts)  # Job stamps itself with the clock
         got = obj.is_overdue
         S.cover("overdue-evaluated")
@@ -161,3 +163,15 @@ ASSUMPTIONS = [
     "clock contract: successive datetime.now() reads are non-decreasing; each read is a fresh symbolic instant",
     "datetime/timedelta arithmetic modelled as exact integer microsecond arithmetic (CPython semantics for naive values)",
 ]
+
+# the same arithmetic as used by the reschedule path (time base and clock are chosen by _prepare_reschedule)
+from harness.c06 import h06_step  # noqa: E402
+
+HARNESSES += [
+    Harness(name="H19d-reschedule-grid", scenario=h06_step, workers=8,
+            bounds={"as H06-step": "one completed iteration from an arbitrary valid state: period [1 s, 100 y], any clock, timestamps, previous slot"},
+            functions=["data/_parameters.py:Parameters._prepare_reschedule", "data/_parameters.py:Parameters.compute_next_execution_time"],
+            covers=["iteration-completed"],
+            stubs=["state constructed directly (see H06-step)"]),
+]
+
